@@ -172,7 +172,7 @@ class DecimalConverter(NullConverter):
         xml_value = str(py_value)
         if 'E' in xml_value or 'e' in xml_value:
             # no exp form allowed in xml
-            return cls._float_to_xml(float(py_value))
+            return format(py_value, 'f')
         return xml_value
 
     @classmethod
